@@ -53,6 +53,9 @@ CHECKS = {
 CHECKS["C18"] = dict(text=B + " Symbolic coefficients flow through the real builders (object-array zeros backend); every element equals the vacuum expectation value of an independent Jordan-Wigner Fock oracle; the five model builders equal the documented Hamiltonians; tensordot(G, psi) acts as D.O.D with a basis-only sign D; two operators in succession equal the product operator.", note=NOTE_B + " Hermitian => Hermitian map with exact spectrum follows from D = D^-1 (trusted step).",
                      tech="z3-term symbolic execution of local-operator builders vs Fock-space oracle (linear identities in symbolic coefficients and amplitudes)", ref="§4 C18", engine="B")
 
+CHECKS["C19"] = dict(text=A + " Symbolic graphs on 4 sites (edge present / listed reversed); the edge-wise builders with the two-site builder replaced by a recorder; parse_edges_to_site_info. " + B + " End to end: the edge terms (spinless on all graphs <=3 sites, spinful on small graphs) applied to a symbolic state and summed equal the Fock-space lattice Hamiltonian applied to it.", note=NOTE_A + " " + NOTE_B,
+                     tech="CrossHair on edge/site bookkeeping + z3-term end-to-end application vs Fock-space lattice Hamiltonian", ref="§4 C19", engine="A+B")
+
 ALL = [f"C{i:02d}" for i in range(1, 21)]
 NA_PARTIAL = {
     "C15": "thread-schedule clause only: concurrent out-of-place calls from several threads are not decided here - CrossHair is single-threaded and models no scheduler, the shared state is mutated through C-level container operations whose atomicity comes from the GIL, and a hand-written interleaving model would verify the model, not the code (DESIGN.md section 5); the history/cache/configuration clauses ARE claimed by the C15 check",
